@@ -67,6 +67,11 @@ def make(shape: Dict[str, Any]) -> Any:
         cb_log: List[Any] = []
         user_tasks: List[Any] = []
         registered_specs: List[Any] = []
+        if 'starting' in doing:
+            # the engine is still creating its endpoints: it reports "running" a symbolic 0..900 ms later (async_close waits up to 1 s for
+            # that, a registration up to the 9 s start-up timeout)
+            zc.engine.running_event.clear()
+            loop.call_at(env.Sec(t0 + ctx.int('start_delay', 0, 900)), zc.engine.running_event.set)
         if 'registered' in doing or 'queued-answers' in doing or 'deferred-tc' in doing:
             zc.registry.async_add(s1.info())
             registered_specs.append(s1)
@@ -177,6 +182,8 @@ QUICK = {
     'lookup': sh('lookup', close_max=1500),
     'at-purge-tick': sh('registered', close_max=10500, close_first=True),
     'idle-at-purge-tick': sh('raw-listener', close_max=10500, close_first=True),
+    'engine-starting': sh('starting', close_max=1200),
+    'engine-starting-registering': sh('starting', 'registering', close_max=1200),
     'own-browser-starting': sh('own-browser', close_max=2000),
     'own-browser-running': sh('own-browser', 'registered', close_max=16000),
 }
